@@ -8,12 +8,12 @@ ALL = ['C%02d' % i for i in range(1, 21)]
 
 TABLE = {
  'C01': dict(cat='exploration',
-   text='every generated packet is run through the real Packet.encode/decode and compared with an independent specification-derived codec in both directions; exhaustive over a header-adjacency grid (7 types x namespaces x ids x payload heads), seeded random over payload trees',
+   text='every generated packet is run through the real Packet.encode/decode and compared with an independent specification-derived codec in both directions; exhaustive over a header-adjacency grid (7 types x namespaces x ids x payload heads), seeded random over payload trees; interleaved reassembly of 2-4 binary packets (one optionally abandoned): each completes on its own last attachment with its own payload',
    note='trusts vlib/refcodec.py as the reading of the v5 protocol; bare top-level numbers directly after the id position are unrepresentable in the format itself and are skipped (counted in evidence)',
    tech='runtime monitoring: differential oracle (specification-derived reference codec) over generated inputs'),
  'C03': dict(cat='exploration',
-   text='online-generated operation histories against real Server/AsyncServer objects; every emit carries a unique token and its recipient multiset, read off the real engine.io socket queues with an independent decoder, must equal the rooms reference model; rooms() compared after every operation; one terminating cause is the client found dead by the emit itself (back-dated ping: engine.io closes the transport with reason ping timeout from inside the send): the emit must not raise and every other addressed member receives once',
-   note='sequential executions; room names truthy non-sequence hashables; operations on a client\'s own personal room are not generated (statement ambiguous there)',
+   text='online-generated operation histories against real Server/AsyncServer objects; every emit carries a unique token and its recipient multiset, read off the real engine.io socket queues with an independent decoder, must equal the rooms reference model; rooms() compared after every operation; one terminating cause is the client found dead by the emit itself (back-dated ping: engine.io closes the transport with reason ping timeout from inside the send): the emit must not raise and every other addressed member receives once; threaded server under the controlled scheduler: emit(room) racing with leave/disconnect/loss/enter/close_room by other threads (no exception, untouched members exactly once, touched at most once) and a room join racing the disconnect of the same client; connections refused by the connect handler with and without always_connect',
+   note='sequential executions; room names truthy non-sequence hashables; operations on a client\'s own personal room are not generated (statement ambiguous there); one known finding (room join racing a disconnect on the threaded server)',
    tech='runtime monitoring: history + executable reference model (rooms as sets), unique tokens, multiset equality'),
  'C05': dict(cat='exploration',
    text='generated histories of EVENT/BINARY_EVENT packets with colliding ids from several clients and namespaces against real Server/AsyncServer; each event carries a unique token; handler invocations (who, sid, args) and ACKs (id, namespace, payload, recipient transport) are accounted for exactly; bursts with pausing handlers check strict arrival order when async_handlers is off; events racing with a disconnect in progress (asyncio: enumerated await-point schedules; threaded: disconnect handler blocked in another thread): an event fed while the client is no longer connected is neither handled nor acknowledged',
@@ -24,7 +24,7 @@ TABLE = {
    note='timeouts are observed at the wait primitive (VirtualEvent) or on a virtual asyncio clock, never wall clock; multi-recipient callbacks excluded as documented',
    tech='runtime monitoring: history + executable ack model, escape monitor, virtual time'),
  'C16': dict(cat='exploration',
-   text='generated histories of connects, save_session/get_session/session() blocks, namespace disconnects, server disconnects, transport losses and re-connects on the same or new transports against real Server/AsyncServer; every read is compared with a dict model keyed by (sid, namespace); stored values carry unique origin markers so a leak names its source; duplicate CONNECT for an already connected namespace leaves the session untouched',
+   text='generated histories of connects, save_session/get_session/session() blocks, namespace disconnects, server disconnects, transport losses and re-connects on the same or new transports against real Server/AsyncServer; every read is compared with a dict model keyed by (sid, namespace); stored values carry unique origin markers so a leak names its source; duplicate CONNECT for an already connected namespace leaves the session untouched; nested session() blocks for the same client and namespace and blocks left through an exception (everything modified inside a block is persisted when it exits)',
    note='dictionaries returned by get_session() are not mutated by the harness; one known finding (session-survives-namespace-reconnect) is matched only when the leaked data comes from an earlier epoch of the same (transport, namespace)',
    tech='runtime monitoring: history + executable session model with origin markers'),
  'C04': dict(cat='exploration',
@@ -32,11 +32,11 @@ TABLE = {
    note='threaded server explored sequentially here (its thread races are C20); empty and absent auth are not distinguished; one known finding (session accepted while its transport is being torn down)',
    tech='runtime monitoring: history + lifecycle reference model; controlled await-point scheduler for asyncio interleavings'),
  'C13': dict(cat='exploration',
-   text='exhaustive enumeration of the 2**6 presence combinations of the six kinds of target, crossed with ordinary/reserved events, unrelated handlers, class-method presence, sync/coroutine handlers and the four classes (4704 cases); each case delivers a real packet through the direct-drive server or the scripted engine.io client and compares the callable that ran and its argument list with a precedence table written from the documentation',
+   text='exhaustive enumeration of the 2**6 presence combinations of the six kinds of target, crossed with ordinary/reserved events, unrelated handlers, class-method presence, sync/coroutine handlers and the four classes (4704 cases); each case delivers a real packet through the direct-drive server or the scripted engine.io client and compares the callable that ran and its argument list with a precedence table written from the documentation; winning coroutine handlers that end in CancelledError (asyncio classes); connect_error as an ordinary event name on servers',
    note='server namespaces admitted through namespaces="*"; event names are identifier-safe so that on_<event> exists; random names/arguments per case',
    tech='runtime monitoring: exhaustive configuration grid, recorder on every registered callable, table oracle'),
  'C17': dict(cat='exploration',
-   text='exhaustive enumeration of 4 namespace classes x helper methods x subsets of optional parameters x {keyword, positional} x {sentinel, falsy} values x registration namespaces (9376 calls); the underlying method on the real server/client instance is replaced by a recorder that binds with the real method signature; identity of every given argument, the namespace rule and the returned value are checked',
+   text='exhaustive enumeration of 4 namespace classes x helper methods x subsets of optional parameters x {keyword, positional} x {sentinel, falsy} values x registration namespaces (9376 calls); the underlying method on the real server/client instance is replaced by a recorder that binds with the real method signature; identity of every given argument, the namespace rule and the returned value are checked; invariant hook on the namespace registry: an object must already be bound to its server/client when it becomes reachable',
    note='defaults of omitted non-namespace arguments and vestigial parameters are outside the property and skipped (listed in evidence)',
    tech='runtime monitoring: recorder bound to real signatures, exhaustive argument-subset grid'),
  'C08': dict(cat='fault_enumeration',
@@ -48,19 +48,19 @@ TABLE = {
    note='background handler tasks run in FIFO order at quiescent points (threaded client) or as real asyncio tasks on a virtual-time loop',
    tech='runtime monitoring: token-matched exactly-once accounting + ack model on the client side'),
  'C10': dict(cat='fault_enumeration',
-   text='fault enumeration on real Client/AsyncClient over a scripted transport: every failure pattern over {transport refusal, namespace refusal, loss during the attempt} up to length 3-4 (T/N up to 6) crossed with the full 108-point grid of delay/delay_max/randomization/attempts, abort by shutdown() at every back-off wait, every intentional cause of ending, and further losses after a successful reconnection; attempts are read at the scripted engine.io connect, back-off delays at the wait primitive (VirtualEvent / wrapped asyncio.wait_for on a virtual loop) and compared with the documented formula',
+   text='fault enumeration on real Client/AsyncClient over a scripted transport: every failure pattern over {transport refusal, namespace refusal, loss during the attempt} up to length 3-4 (T/N up to 6) crossed with the full 108-point grid of delay/delay_max/randomization/attempts, abort by shutdown() at every back-off wait, every intentional cause of ending, and further losses after a successful reconnection; attempts are read at the scripted engine.io connect, back-off delays at the wait primitive (VirtualEvent / wrapped asyncio.wait_for on a virtual loop) and compared with the documented formula; fault mode H: the transport is lost inside the connect handler of a reconnection attempt after every namespace was acknowledged',
    note='jitter is judged as a range; the thread-schedule window between connect() returning in the reconnect thread and the task reference being cleared is outside the quantifier; one known finding (stale reconnect task after an unsuccessful effort) pinned by the suite',
    tech='runtime monitoring: fault enumeration with scripted transport, back-off oracle on virtual waits'),
  'C11': dict(cat='fault_enumeration',
-   text='client generations built from the quantifier\'s history elements run one after another on one persistent real server; for a history with K application-handler invocations every single fault position (that invocation raises; quick tier samples up to 7) plus the fault-free run, every end cause, optional application operations on the departed sid; after each transport ends: API-level residue (rooms, is_connected, get_environ, get_participants over all rooms), manager listings and the number of objects reachable from the server (gc reachability) must equal the baseline taken after a clean warm-up generation, and a probe client must be served exactly as on the fresh server',
-   note='closed engine.io sockets are removed the way engineio.Server.handle_request does; GraphSize skips types/modules/functions/loggers and shared immutable scalars; single-host managers',
+   text='client generations built from the quantifier\'s history elements run one after another on one persistent real server; for a history with K application-handler invocations every single fault position (that invocation raises; quick tier samples up to 7) plus the fault-free run, every end cause, optional application operations on the departed sid; after each transport ends: API-level residue (rooms, is_connected, get_environ, get_participants over all rooms), manager listings and the number of objects reachable from the server (gc reachability) must equal the baseline taken after a clean warm-up generation, and a probe client must be served exactly as on the fresh server; a quarter of the cases on a message-queue manager; refusal race: the transport ends while the connect handler is suspended/blocked and the handler then accepts / returns False / raises ConnectionRefusedError',
+   note='closed engine.io sockets are removed the way engineio.Server.handle_request does; GraphSize skips types/modules/functions/loggers and shared immutable scalars; one known finding (callback registered for an absent client on a message-queue manager)',
    tech='runtime monitoring: fault injection at every handler invocation + leak monitor (gc reachability count) + API residue + differential probe trace'),
  'C12': dict(cat='exploration',
    text='attacks on a real Server/AsyncServer: one offender sends 30-120 generated frames (grammar-based mutations of valid packets, raw random text/bytes, mutated msgpack maps, a quarter of them through engine.io\'s own packet decoding) interleaved with well-formed bystander events, broadcasts and pending callbacks; monitors: no handler invocation or frame for a bystander during offender input, bystander rooms/session/connection unchanged, handler arguments derivable from the offending frame, post-attack probes (bystander callbacks complete, fresh client served), per-frame allocation bound with tracemalloc under RLIMIT_AS; CPU-time budget (3 s of process CPU time, ITIMER_VIRTUAL) around every single offender frame, with graded long-run frames aimed at super-linear scanners',
    note='engine.io contains the exceptions raised by the message callback (trusted); the offender\'s own connection may be left unusable; allocation bound 400 B per input byte + 600 kB',
    tech='runtime monitoring: grammar-based hostile workload + bystander trace/state monitors + allocation monitor (tracemalloc)'),
  'C15': dict(cat='fault_enumeration',
-   text='(a) a real PubSubManager/AsyncPubSubManager with an in-memory backend and local clients; its real listener thread/task is fed sequences of bad channel messages (undecodable bytes, pickles/JSON of non-dicts incl. strings and lists containing "method", dicts with missing/surplus/wrong-typed fields, unknown methods, own-host echoes of every method, callback messages for other hosts/unknown ids; as bytes, text or dict), a quarter combined with an injected fault (server operation raises, send raises, the listen iterator raises and is restarted); after each one a sentinel emit from another host must reach its local client exactly once and echoes/foreign callbacks must have no effect; (b) the bundled Redis backends driven with a fake redis client whose connections/subscriptions fail on schedule: every broker message yielded once, retry sleeps equal to the 1,2,4..60 schedule; valid callback messages whose application callback raises (Exception; CancelledError of a coroutine callback on asyncio)',
+   text='(a) a real PubSubManager/AsyncPubSubManager with an in-memory backend and local clients; its real listener thread/task is fed sequences of bad channel messages (undecodable bytes, pickles/JSON of non-dicts incl. strings and lists containing "method", dicts with missing/surplus/wrong-typed fields, unknown methods, own-host echoes of every method, callback messages for other hosts/unknown ids; as bytes, text or dict), a quarter combined with an injected fault (server operation raises, send raises, the listen iterator raises and is restarted); after each one a sentinel emit from another host must reach its local client exactly once and echoes/foreign callbacks must have no effect; (b) the bundled Redis backends driven with a fake redis client whose connections/subscriptions fail on schedule: every broker message yielded once, retry sleeps equal to the 1,2,4..60 schedule; valid callback messages whose application callback raises (Exception; CancelledError of a coroutine callback on asyncio); (c) the bundled Redis managers end to end: real Server/AsyncServer + RedisManager/AsyncRedisManager on a fake in-memory broker that honours subscriptions per pub/sub object and keeps dropped connections dead; bad payloads and broker drops, sentinel exactly once after each',
    note='injected faults are Exception subclasses; undecodable bytes start with a non-opcode byte because unpickling hostile pickle programs is outside what python-socketio can contain; redis is a harness-provided fake module',
    tech='runtime monitoring: fault injection + sentinel exactly-once oracle on the real listener loop'),
  'C07': dict(cat='exploration',
@@ -68,8 +68,8 @@ TABLE = {
    note='FIFO reliable channel; delayed mode issues a membership operation only when no membership message is in flight (crossing operations are order-dependent for any implementation); callbacks only for emits addressed to the client\'s own sid',
    tech='runtime monitoring: history + single-server reference model over the union of clients, logical-time flight windows'),
  'C20': dict(cat='exploration',
-   text='the real threaded Server with real threads under a controlled scheduler (one thread runs at a time): bounded-exhaustive DFS over all schedules of every pair of the four terminating causes with pre-emption at each client-manager / engine.io call and inside the disconnect handler (pre-emption-bounded for triples), plus seeded random schedules with statement-level yield points injected through sys.monitoring LINE events in server.py, base_manager.py and manager.py; per schedule: disconnect handler exactly once, no exception in any thread or engine.io log, no API-level residue and object-graph size equal to the clean baseline',
-   note='interleavings inside a single bytecode instruction are not explored; DFS is capped per pair in the quick tier (completeness per pair is reported in evidence); locks of the manager are replaced by scheduler-aware ones',
+   text='the real threaded Server with real threads under a controlled scheduler (one thread runs at a time): bounded-exhaustive DFS over all schedules of every pair of the four terminating causes with pre-emption at each client-manager / engine.io call and inside the disconnect handler (pre-emption-bounded for triples), plus seeded random schedules with statement-level yield points injected through sys.monitoring LINE events in server.py, base_manager.py and manager.py; per schedule: disconnect handler exactly once, no exception in any thread or engine.io log, no API-level residue and object-graph size equal to the clean baseline; six scenarios in which a terminating cause races with the client\'s own DISCONNECT + re-CONNECT and with a client event (per-session cause/reason oracle)',
+   note='interleavings inside a single bytecode instruction are not explored; DFS is capped per pair in the quick tier (completeness per pair is reported in evidence); locks of the manager are replaced by scheduler-aware ones; one known finding (session accepted while its transport is being torn down, threaded twin of the C04 finding)',
    tech='runtime monitoring: controlled thread scheduler (systematic + randomized schedule exploration) with exactly-once / escape / residue monitors'),
  'C19': dict(cat='exploration',
    text='real SimpleClient over a real Client over the scripted engine.io, its two Events and input buffer replaced by scheduler-aware equivalents; producer (handler) threads, consumer, network (final loss / loss with successful reconnection) and emitter actors run under a controlled scheduler: every interleaving (DFS, capped per scenario, completeness reported) at the granularity of the client\'s event/buffer operations for 11 small scenarios, seeded random schedules (60% with statement-level yield points in simple_client.py via sys.monitoring) for random larger ones; AsyncSimpleClient: every release order of the parked tasks at delivery and wake-up points on a virtual-time loop; oracles: returned sequence = arrival sequence prefix, TimeoutError only with nothing unreturned (timeouts fire only at quiescence), DisconnectedError only after a final end with every event that arrived before it returned, emit() never fails except DisconnectedError after a final end; connect-time arrivals: events dispatched while the application is still inside connect() are returned by receive() in arrival order',
